@@ -363,6 +363,25 @@ func c20Overlay(r *rand.Rand) Case {
 						randomEdit(r, lb)
 					}
 				}
+				// ... also below the root of the snapshot (whatever the root itself allows)
+				for _, ch := range l.Children() {
+					if cb, ok := ch.(dom.ContainerBuilder); ok {
+						for j := 0; j < 3; j++ {
+							randomEdit(r, cb)
+						}
+						cb.AddValue("written-into-a-snapshot", dom.LeafNode(1))
+					}
+				}
+			}
+		}},
+		{"LookupAny-repeated", func() {
+			// the answer comes from the first layer (in order of creation) that has the path: every time
+			first := ov.Lookup("l0", "deep.x.y.shared")
+			for j := 0; j < 24; j++ {
+				if n := ov.LookupAny("deep.x.y.shared"); n == nil || first == nil || !n.Equals(first) {
+					fail = append(fail, "LookupAny did not answer from the first layer that has the path")
+					break
+				}
 			}
 		}},
 		{"own-the-merged-view", func() {
